@@ -36,7 +36,11 @@ def run_obj(cls, precision, t, d, classes, split=False):
         o.update(t[order[cut:]], d[order[cut:]])
     else:
         o.update(t, d)
-    return np.asarray(o.compute())
+    first = np.asarray(o.compute())
+    again = np.asarray(o.compute())              # asking again, without new data, must give the same statistic
+    if first.shape != again.shape or not np.array_equal(first, again, equal_nan=True):
+        return again
+    return first
 
 
 def check_entry(chk, metric, precision, got, r, kappa, ctx):
